@@ -131,3 +131,30 @@ pub fn then_gate(f: impl Future<Output = u8>, p: u8, c: u16, k: u8) -> impl Futu
 pub fn then_gate_r(f: impl Future<Output = Result<u8, u8>>, p: u8, c: u16, k: u8) -> impl Future<Output = Result<u8, u8>> {
     async move { let x = f.await?; ev(c); gate(p, (c & 0x0fff) | (K_POLL << 12) | 1, Ok::<u8, u8>(x.wrapping_add(k))).await }
 }
+
+/// order-sensitive accumulator usable as a `partition` / `collect` target without heap allocation
+#[derive(Default, PartialEq, Eq, Debug, Clone, Copy)]
+pub struct Acc(pub u8, pub u8);
+impl Extend<u8> for Acc {
+    fn extend<I: IntoIterator<Item = u8>>(&mut self, it: I) { for x in it { self.0 = self.0.wrapping_mul(3).wrapping_add(x); self.1 = self.1.wrapping_add(1); } }
+}
+
+/// number of logged events of a kind / the n-th event of a kind (bounded scans)
+pub fn tlen_kind(kind: u16) -> usize { let mut n = 0; let mut i = 0; while i < TMAX && i < tlen() { if kind_of(tr(i)) == kind { n += 1; } i += 1; } n }
+pub fn nth_kind(kind: u16, n: usize) -> u16 { let mut k = 0; let mut i = 0; while i < TMAX && i < tlen() { if kind_of(tr(i)) == kind { if k == n { return tr(i); } k += 1; } i += 1; } 0 }
+
+pub mod reexport { pub use ::futures; }
+
+/// logging joiners (macro form, so that any arity works)
+#[macro_export]
+macro_rules! value_joiner { ($($b:expr),+) => {{ $crate::support::ev($crate::support::code($crate::support::K_JOINER, 0, 0, 0 $(+ { let _ = stringify!($b); 1 })+)); ($($b),+) }}; }
+#[macro_export]
+macro_rules! lazy_joiner { ($($b:expr),+) => {{ $crate::support::ev($crate::support::code($crate::support::K_JOINER, 0, 0, 0 $(+ { let _ = stringify!($b); 1 })+)); ($(($b)()),+) }}; }
+#[macro_export]
+macro_rules! transposing_joiner {
+    ($a:expr, $b:expr) => {{ $crate::support::ev($crate::support::code($crate::support::K_JOINER, 0, 0, 2)); let (a, b) = ($a, $b); a.and_then(|a| b.map(|b| (a, b))) }};
+    ($a:expr, $b:expr, $c:expr) => {{ $crate::support::ev($crate::support::code($crate::support::K_JOINER, 0, 0, 3)); let (a, b, c) = ($a, $b, $c); a.and_then(|a| b.and_then(|b| c.map(|c| (a, b, c)))) }};
+}
+#[macro_export]
+macro_rules! log_try_join { ($($b:expr),+) => {{ $crate::support::ev($crate::support::code($crate::support::K_JOINER, 0, 0, 0 $(+ { let _ = stringify!($b); 1 })+)); ::futures::try_join!($($b),+) }}; }
+pub use crate::{lazy_joiner, transposing_joiner, value_joiner};
